@@ -267,6 +267,16 @@ def file_cases(rng, n):
                {"x": {"$merge": "x"}}]
     for _ in range(n):
         r = rng.random()
+        if rng.random() < 0.06:
+            # a good document and an output destination whose format cannot be determined or written: a diagnostic, not a crash
+            tool = rng.choice(["bkl", "bkl", "bkld", "bkli", "bklr"])
+            dest = rng.choice(["out.txt", "out", "out.", "out.JSON", "out.yaml.bak", ".json", "nosuchdir/out.json", "out.ini", "."])
+            files = {"f.yaml": formats.dump_yaml([{"a": 1, "l": [1, 2]}]), "g.yaml": formats.dump_yaml([{"a": 2}])}
+            args = ["-o", dest] + (["f.yaml", "g.yaml"] if tool in ("bkld", "bkli") else ["f.yaml"])
+            if rng.random() < 0.3:
+                args = ["-f", rng.choice(["json", "yaml", "toml"])] + args
+            out.append({"kind": "output-destination", "files": files, "tool": tool, "args": args})
+            continue
         if r < 0.12:
             # a stream whose EARLIER documents evaluate fine and a LATER one fails in the output phase: all or nothing
             k = rng.randint(2, 4)
@@ -325,7 +335,7 @@ def run_file_case(c):
         if not shape and r["rc"] not in (0, None) and "-o" in c["args"]:
             # a failed run leaves nothing in the file it was asked to write
             op = os.path.join(d, c["args"][c["args"].index("-o") + 1])
-            if os.path.exists(op) and os.path.getsize(op) > 0:
+            if os.path.isfile(op) and os.path.getsize(op) > 0:
                 shape = "non-zero exit with partial output left in the -o file"
         return {"rc": r["rc"], "out": r["out"][:300], "err": r["err"][:400], "shape": shape}
 
